@@ -4,7 +4,7 @@ SPEC = {
     'technique': 'explicit-state exploration of all well-formed operation histories up to a depth bound on the real library against a last-writer-wins reference model',
     'claim': 'after every well-formed history of length <= 4 (quick) / <= 5 (thorough) over 37 operations - Apply(cb1|cb2), Origin+Apply (a callback that calls the original), Return, When(1).Return through fresh lookups, retained handles, a handle kept across Cancel/Reset and the struct-level handle of the first Struct() lookup, Cancel, Reset and Pkg on a function, an exported and two unexported methods, one type through a value and through a pointer instance, two interface methods of one variable with one signature (given by alternating func literals), a function with an origin placeholder and an unexported function resolved by package - every target behaves according to the most recent instruction (a later Apply supersedes stubs, a later Return/When after Apply supersedes the callback, Return/When extend an existing stub, Cancel/Reset start from scratch) and a Pkg override is consumed by exactly the next lookup',
     'note': 'bounded depth and alphabet; retained handles are used only within one configuration epoch (until the next Cancel/Reset of their target); Var/UnExportedVar are not part of the Pkg alphabet; a bare Return after a clause exists is not in the alphabet (DESIGN 3.7)',
-    'jobs': [{'bin': 'c12', 'shards': 16, 'case_timeout': 60, 'single_timeout': 120, 'hang_is_violation': True, 'max_restarts': 1, 'maxcases': 12000}],
+    'jobs': [{'bin': 'c12', 'shards': 16, 'case_timeout': 180, 'single_timeout': 300, 'hang_is_violation': True, 'max_restarts': 1, 'maxcases': 12000}],
     'rule': 'all sequences over the alphabet filtered by well-formedness, each replayed from scratch on a fresh builder; after the last step every target is probed with arguments [2 1 2 1 9] (sequences and clause selection visible) and PkgName is compared; '
             'distinct_nontrivial = histories with >= 2 configuring operations.',
     'assumptions': [],
